@@ -5,8 +5,11 @@
      vtree        a tree of library views: text, str, flex (direction, justification, children with flex
                   factor / face / alignment, zero or more), container (size, alignments, margins, face), frame,
                   scroll bar, tag, Option::None, dynamic (any function from the constraint to a view), fill
-                  (RGBA), unit, image, glyph, and the harness's probe leaf.  Option::Some / Either are the
-                  wrapped view itself.  Trees deserialised from JSON are trees of this type.
+                  (RGBA), unit, image, glyph, surface view (SurfaceView<Cell>), image as half blocks
+                  (ImageAsciiView), cached view (JSON "ref"), and the harness's probe leaf.  Option::Some /
+                  Either / Box / Arc / TraceLayout are the wrapped view itself.  Trees deserialised from JSON
+                  (types text, flex, container, tag, image, image_ascii, glyph, ref) are trees of this type;
+                  "color" cannot be deserialised at all, custom handler types are whatever they return.
      ct, Valid    BoxConstraint with min <= max per axis (any extents, including 0 and 1)
      vctx         glyph capability, char widths, pixels per cell
      layout       View::layout: outcome of a layout tree (Panic where the code would panic)
@@ -21,13 +24,17 @@ Import ListNotations.
 Local Open Scope N_scope.
 
 (* (1) Layout is total: for every view tree, both glyph settings (any context) and every valid
-   constraint, View::layout returns a layout tree; it never panics. *)
+   constraint -- any extents, usize::MAX included: the model saturates where the repaired code
+   saturates -- View::layout returns a layout tree; it never panics.  Flex factors of the model are
+   positive numerators over a common denominator; for those the f64 share computation of
+   flex_layout is exact as long as remain * factor < 2^53 (assumption, see design/C10.md); for
+   other doubles the share is whatever f64 yields, capped by the remaining space. *)
 Theorem C10_layout_total : forall (vc : vctx) (v : vtree) (c : ct),
   Valid c -> exists t, layout vc v c = Ok t.
 Proof. exact layout_total. Qed.
 
-(* (2) The size reported by text, str, flex, container, fill, unit, image, glyph (and probe) views lies
-   within the given constraint. *)
+(* (2) The size reported by text, str, flex, container, fill, unit, image, glyph, surface, half-block image
+   (and probe) views lies within the given constraint. *)
 Theorem C10_within : forall (vc : vctx) (v : vtree) (c : ct) (t : ltree),
   claimed_kind v = true -> Valid c -> layout vc v c = Ok t ->
   c_minh c <= l_hh t <= c_maxh c /\ c_minw c <= l_ww t <= c_maxw c.
@@ -85,23 +92,26 @@ Check C10_within : forall (vc : vctx) (v : vtree) (c : ct) (t : ltree),
   claimed_kind v = true -> Valid c -> layout vc v c = Ok t ->
   c_minh c <= l_hh t <= c_maxh c /\ c_minw c <= l_ww t <= c_maxw c.
 
-(* ---------- the arithmetic of flex_layout / Container::layout as coded before the repairs ---------- *)
-(* usize division and subtraction as debug Rust performs them *)
-Definition udiv (a b : N) : outcome N := if b =? 0 then Panic 1 else Ok (a / b).
-Definition usub (a b : N) : outcome N := if a <? b then Panic 2 else Ok (a - b).
-Definition uadd (a b : N) : outcome N := if UMAX <? a + b then Panic 3 else Ok (a + b).
+(* (7) every leaf view changes the slice only inside the rectangle its own layout node records *)
+Theorem C10_leaf_confined : forall (H W : nat) (vc : vctx) (v : vtree) (t : ltree) (sh : shape) (w : window) (s s' : rst),
+  (Z.of_nat (Nat.max H W) <= i64_max)%Z -> is_leaf v = true -> Rep H W sh w -> (H * W <= length (r_data s))%nat ->
+  render vc v t sh s = Ok s' ->
+  Frame (apply_to sh t) (r_data s) (r_data s') /\ Rep H W (apply_to sh t) (win_apply w t).
+Proof.
+  intros H W vc v t sh w s s' Hmax Hl Hrep Hlen E. split.
+  - exact (leaf_confined H W Hmax vc v t sh w s s' Hl Hrep Hlen E).
+  - now apply rep_apply_win.
+Qed.
 
-(* Justify::SpaceAround: unused / children.len() *)
-Lemma C10_space_around_refuted : exists unused n, 0 < unused /\ udiv unused n = Panic 1.
-Proof. exists 5, 0. split; reflexivity. Qed.
+(* (8) the cap on the available width inside the model of Text::layout does not change the result *)
+Theorem C10_text_cap_exact : forall (vc : vctx) (cells : list ccell) (wraps : bool) (maxw : N),
+  text_size (v_r vc) cells wraps (N.to_nat (N.min maxw (N.of_nat (text_bound vc cells)))) =
+  text_size (v_r vc) cells wraps (N.to_nat maxw).
+Proof. exact text_size_cap. Qed.
 
-(* major_remain -= child_major, with a Frame (size child + 2) offered one cell *)
-Lemma C10_flex_share_refuted : exists remain child_major, usub remain child_major = Panic 2.
-Proof. exists 1, 2. reflexivity. Qed.
-
-(* child.height + margins.top + margins.bottom *)
-Lemma C10_margins_refuted : exists h top bottom, (let* a := uadd h top in uadd a bottom) = Panic 3.
-Proof. exists 1, UMAX, 1. reflexivity. Qed.
+(* The defects repaired in the crate (division by zero, underflow, overflows, infinite share, endless
+   loops) are documented by failing inputs replayed on the unrepaired code: corpus/C10/*.jsonl and
+   known_findings.d/C10.json. *)
 
 (* ---------- non-vacuity ---------- *)
 Definition ex_vc : vctx := mkV (mkCtx true [] dfa0 []) 20 10.
@@ -116,6 +126,16 @@ Example C10_layout_nonvacuous :
   Valid (mkCt 0 1 5 12) /\
   match layout ex_vc ex_tree (mkCt 0 1 5 12) with
   | Ok t => length (l_kids t) = 4%nat /\ l_hh t <= 5 /\ l_ww t = 11
+  | _ => False
+  end.
+Proof. vm_compute. repeat split; try reflexivity; discriminate. Qed.
+
+Example C10_layout_huge_nonvacuous :
+  Valid (mkCt 0 0 UMAX UMAX) /\
+  match layout ex_vc (VFlex Hor JBetween [(VFill 1, None, None, AStart); (VFill 2, None, None, AEnd);
+                                            (VFrame (VScrollBar Ver face0 1 1 0) 3, Some 2%positive, None, ACenter)])
+               (mkCt 0 0 UMAX UMAX) with
+  | Ok t => l_ww t = UMAX /\ length (l_kids t) = 3%nat
   | _ => False
   end.
 Proof. vm_compute. repeat split; try reflexivity; discriminate. Qed.
